@@ -149,6 +149,7 @@ def run(ck):
 
     # ------------------------------------------------------------------ R16.2
     data_tok = _Data()
+    ck.extra['exhaustive_parts'] = ['R16.2: Edge 2x2x3x2 flag settings x 3x2 (previous, value) classes = 144 cases; not_from_undef 4; IfOutput 3; NotIfInitialized 2 -- complete on the truthiness domain']
     # Edge
     edge = prog.cls(f"{FIL}:Edge")
     einit, ecall = edge.methods.get('__init__'), edge.methods.get('__call__')
